@@ -90,11 +90,113 @@ def sym_gate_closed(nsubs, drivers):
     return "ok"
 
 
+# ---------------------------------------------------------------------------- pipeline level
+def _plugins(template, n):
+    from harness import ctx
+    import strax
+
+    L = ctx.Layout([10 * i for i in range(n + 1)], [[(10 * i + 1, 10 * i + 2, i)] for i in range(n)])
+    nv = strax.SaveWhen.NEVER
+    if template == "chain":
+        return [ctx.P_source("src", "ksrc", L, False, save_when=nv), ctx.P_map("m1", "src", False, save_when=nv),
+                ctx.P_map("t1", "m1", False, save_when=nv)], "t1"
+    if template == "chain_saved":
+        return [ctx.P_source("src", "ksrc", L, False, save_when=nv), ctx.P_map("m1", "src", False, rechunk_on_save=False),
+                ctx.P_map("t1", "m1", False, save_when=nv)], "t1"
+    if template == "diamond":
+        return [ctx.P_source("src", "ksrc", L, False, save_when=nv), ctx.P_map("m1", "src", False, kind="kk", save_when=nv),
+                ctx.P_map("m2", "src", False, kind="kk", offset=7, save_when=nv),
+                ctx.P_merge("t1", ["m1", "m2"], "kk", False, save_when=nv)], "t1"
+    if template == "multi":
+        return [ctx.P_source("src", "ksrc", L, False, save_when=nv),
+                ctx.P_split2(["sa", "sb"], "src", False, 0, save_when=nv), ctx.P_map("t1", "sb", False, save_when=nv)], "t1"
+    raise ValueError(template)
+
+
+def _advances(template, n, p, lazy, cap, pol):
+    """Run the real threaded pipeline on n source chunks, stop pulling after p chunks, let it come to rest; return how
+    many source chunks were produced."""
+    from harness import ctx
+
+    P, target = _plugins(template, n)
+    ctx.COUNTS.clear()
+    st = ctx.make_context(P, allow_lazy=lazy, max_messages=cap, timeout=1)
+    with mbox.SchedRun(pol) as s:
+        it = st.get_iter("0", target, processor="threaded_mailbox", progress_bar=False)
+        got = 0
+        for c in it:
+            got += 1
+            if got == p:
+                break
+        if p == 0:
+            pass
+        s.park()  # the consumer stops pulling; everything else runs until it blocks
+        produced = ctx.COUNTS.get("src", 0)
+        rest = s.quiesced
+        try:
+            it.close()
+        except BaseException:
+            pass
+        s.finish()
+    return produced, rest, s.deadlock
+
+
+def sym_backpressure(template, lazy, cap, policy, dev, n=10):
+    """Source advances after the consumer stops: equal for runs of n and 2n chunks (bounded by graph + capacity)."""
+    import warnings
+
+    warnings.simplefilter("ignore")
+    p = core.concretize(fresh_int("p", 1, 3))
+    a, rest_a, dl_a = _advances(template, n, p, lazy, cap, mbox.deviating_policy(conc.POLICIES[policy], dev, "da"))
+    b, rest_b, dl_b = _advances(template, 2 * n, p, lazy, cap, mbox.deviating_policy(conc.POLICIES[policy], 0, "db"))
+    prove(rest_a and rest_b, "backpressure:pipeline did not come to rest")
+    prove(a < n, f"backpressure:run of {n} chunks was produced completely ({a}) although the consumer stopped after {p}")
+    if dev == 0:
+        prove(a == b, f"backpressure:source advanced {a} chunks in a run of {n} but {b} in a run of {2 * n} (pause after {p})")
+    else:
+        prove(b < 2 * n and a <= _bound(template, cap, lazy, p), f"backpressure:{a} source chunks exceed the graph/capacity bound")
+    if lazy:
+        # demand-driven: at most one chunk beyond what the consumer asked for, per stage
+        prove(a <= p + _depth(template) + 1, f"backpressure:lazy mode produced {a} source chunks for {p} consumed")
+    return [p, a, b]
+
+
+def _depth(template):
+    return {"chain": 2, "chain_saved": 2, "diamond": 2, "multi": 2}[template]
+
+
+def _bound(template, cap, lazy, p):
+    return p + (_depth(template) + 1) * (cap + 1) + 2
+
+
+def nat_backpressure(params, model):
+    label = core.concrete_run(lambda: sym_backpressure(**params), model)
+    return {"ok": label is None, "detail": label or "holds", "label": label}
+
+
+def _g_bp(tier):
+    g = []
+    for tp in ("chain", "chain_saved", "diamond", "multi"):
+        for lazy, caps in ((True, [4]), (False, [1, 2] if tier == "quick" else [1, 2, 3, 4])):
+            for cap in caps:
+                for pol in ("lowest", "highest", "rr"):
+                    g.append(dict(template=tp, lazy=lazy, cap=cap, policy=pol, dev=0, n=30))
+        if tier != "quick":
+            g.append(dict(template=tp, lazy=True, cap=4, policy="rr", dev=1, n=30))
+    return g
+
+
 MUTANTS = [
+    dict(name="original F-C13: gate compares the awaited number with the lowest queued one", file="strax/mailbox.py",
+         only="gate,backpressure",
+         old="[x is not None and self._has_msg(x) for x in self._subscriber_waiting_for]",
+         new="[x is not None and x <= self._lowest_msg_number for x in self._subscriber_waiting_for]"),
     dict(name="gate ignores can_drive", file="strax/mailbox.py", only="gate",
          old="            if can_drive and waiting_for is not None:", new="            if waiting_for is not None:"),
     dict(name="gate opens when nobody waits", file="strax/mailbox.py", only="gate",
          old="                return True\n        return False\n\n    def _send_from", new="                return True\n        return True\n\n    def _send_from"),
+    dict(name="savers drive production in lazy mode", file="strax/processors/threaded_mailbox.py", only="backpressure",
+         old="                    can_drive = not lazy", new="                    can_drive = True"),
     dict(name="eager capacity off by one", file="strax/mailbox.py", only="cap_send,cap_read",
          old="return len(self._mailbox) < self.max_messages or self.killed", new="return len(self._mailbox) <= self.max_messages or self.killed"),
 ]
@@ -109,7 +211,19 @@ def _g_gate(tier):
     return g
 
 
+def _setup_all():
+    from harness import ctx
+
+    inj = ctx.setup()
+    inj2 = mbox.setup()
+    inj.saved.extend(inj2.saved)
+    return inj
+
+
 OBLIGATIONS = [
+    Ob("backpressure", sym_backpressure, _g_bp, nat_backpressure, setup=_setup_all, witnesses=1,
+       doc="real threaded pipeline under the scheduler, consumer stops after p chunks, run to quiescence: source advances "
+           "equal for N and 2N chunks; lazy: bounded by demand"),
     Ob("gate", sym_gate, _g_gate, mbox.nat_rg(sym_gate), setup=mbox.setup, witnesses=1,
        doc="lazy: when the gate lets the sender advance the source, a driving reader waits for an unproduced message"),
     Ob("gate_open", sym_gate_closed, lambda tier: [dict(nsubs=s, drivers=m) for s in ([1, 2] if tier == "quick" else [1, 2, 3])
